@@ -78,6 +78,9 @@ func H_C06_required(v *V) {
 	}
 	sup := make([]bool, len(ods))
 	var lvlToks [4][]string
+	// the first supplied option may be given twice (a repeated occurrence
+	// must not stand in for another, missing, required option)
+	dup := v.Choice(2) == 1
 	for i, o := range ods {
 		if !active(o.level) {
 			continue // an option of a command that is not named cannot be supplied
@@ -85,6 +88,10 @@ func H_C06_required(v *V) {
 		if v.Choice(2) == 1 {
 			sup[i] = true
 			lvlToks[o.level] = append(lvlToks[o.level], o.toks[v.Choice(len(o.toks))]...)
+			if dup {
+				lvlToks[o.level] = append(lvlToks[o.level], o.toks[0]...)
+				dup = false
+			}
 		}
 	}
 	cluster := false
